@@ -110,7 +110,7 @@ P('C03', claimed=True, level='other', contracts=['base_utils', 'synth_ugen', 'sy
               'from {scalar, tuple, lists of length 1-3, nested, ChannelList, default} for the first 3 '
               'parameters; the law is relative to the single-channel call.'))
 
-P('C04', claimed=True, level='other', contracts=['synth_controls'], drivers=['vf.drivers.C04'],
+P('C04', claimed=True, level='other', contracts=['synth_controls', 'synth_buildcontrols'], drivers=['vf.drivers.C04'],
   level_text=('The slot-counter discipline the layout rests on is under contract (pyvc, all inputs): a control '
               'unit starts at the current length of the defaults array, appends exactly its own values and '
               'advances the slot counter by as much (Control/AudioControl/LagControl._init_ugen), the '
@@ -122,12 +122,18 @@ P('C04', claimed=True, level='other', contracts=['synth_controls'], drivers=['vf
               'aligned name/value lists shifted past the prepended arguments, and control k is entered exactly once '
               'with the name of parameter skip+k, the adjusted default k, the rate group of the overriding rates '
               'entry else of the annotation else control rate, and the rates entry as lag (missing -> 0, None/kr -> '
-              '0.0). Everything else (grouping '
-              'by rate, reshape to argument order, name table/defaults/variants in the bytes, wiring of the '
+              '0.0). Grouping by rate is under contract as well (SynthDef._build_controls with its nested helper and '
+              'nonlocal state, five loop contracts): ONE control unit per non-empty rate group in the order initial - '
+              'trigger - audio - control, by the group\'s class and constructor (lagged iff some lag is non-zero), from '
+              'the flattened defaults of exactly that group\'s names collected into a list of its own; the slot counter is '
+              'read BEFORE the unit advances it and name j gets index = that value + widths of the names before it (ghost '
+              'prefix sum), argument slot arg_num and the j-th reshaped output; lags name by name, wrapped to the width for '
+              'array defaults; prepended names pass their default and leave the name list. Everything else (reshape itself, name table/defaults/variants in the bytes, wiring of the '
               'body, call mapping) is checked on the emitted bytes with an independent SCgf reader for '
               'exhaustively enumerated signatures of up to 3 parameters and random ones up to 40 (bounded).'),
-  level_note=('SynthDef._build_controls (nested function with nonlocal state) is outside the provable subset: '
-              'bounded only. In the _args_to_controls contract the inspect module, _get_valid_arg_values and '
+  level_note=('In the _build_controls contract the rate groups are uninterpreted sequences (that the five filter '
+              'comprehensions partition the names is Python\'s meaning of them), flat/as_list/reshape_like/wrap_extend and '
+              'the creation of the unit are ghost calls. In the _args_to_controls contract the inspect module, _get_valid_arg_values and '
               '_apply_metadata_specs are ghost (uninterpreted per parameter / per position). The defaults array and the name tables are '
               'abstracted to their lengths plus the trace of appended elements.'))
 
